@@ -86,9 +86,24 @@ func bIndex(item Result) int {
 }
 
 func bNode(m *bMon, exec func(ctx context.Context, item Result) (Result, error)) *BatchNodeBuilder {
-	return NewBatchNode().
-		WithBatchConcurrency(m.c).
-		WithBatchErrorHandling(!m.stop).
+	// the batch settings reach the node through the fluent methods, through constructor options, or
+	// through a mixture of both (param styles > 1): the batch behaves the same
+	var b *BatchNodeBuilder
+	style := 0
+	if vParam("styles", 1) > 1 {
+		style = vChoice("configStyle", 3)
+	}
+	switch style {
+	case 1:
+		vCover("settings-through-constructor-options")
+		b = NewBatchNode(WithBatchConcurrency(m.c), WithBatchErrorHandling(!m.stop))
+	case 2:
+		vCover("settings-through-option-then-fluent")
+		b = NewBatchNode(WithBatchErrorHandling(!m.stop)).WithBatchConcurrency(m.c)
+	default:
+		b = NewBatchNode().WithBatchConcurrency(m.c).WithBatchErrorHandling(!m.stop)
+	}
+	return b.
 		WithPrepFunc(func(ctx context.Context, s *SharedStore) ([]Result, error) { return bItems(m.n), nil }).
 		WithExecFunc(exec).
 		WithPostFunc(func(ctx context.Context, s *SharedStore, items, results []Result) (Action, error) {
